@@ -1,6 +1,7 @@
 """pytest plugin / importable recorder for specs/NetShapeTrace.tla: one event per backend step of the TEMPO, mean-field
 TEMPO, PT-TEMPO and Gibbs tensor networks (lengths of state and operator, bond dimensions), recorded while ANY program
-runs - the repository's own unmodified tests or harness/extras/netshape.py's randomised driver.
+runs - the repository's own unmodified tests or harness/extras/netshape.py's randomised driver.  For PT-TEBD: one event
+per layer of gates / process-tensor step applied to the augmented chain (leg and bond dimensions of every site).
 
 Harness-side only (methods wrapped from outside); active only when VERIF_NET_TRACE names the output file."""
 import json
@@ -87,5 +88,52 @@ def install():
     wrap(tb.TIBaseBackend, "compute_step", "step", "gibbs", _ti, ti_consts, lambda self, a, kw: int(self._step))  # pylint: disable=protected-access
 
 
+def _tebd(be):
+    n = be.n
+    return {"phys": [int(e.dimension) for e in be._phys_es], "pt": [int(e.dimension) for e in be._pt_es],     # pylint: disable=protected-access
+            "left": [int(e.dimension) for e in be._lam_gam_es], "right": [int(e.dimension) for e in be._gam_lam_es],   # pylint: disable=protected-access
+            "lam": [[int(x) for x in be._lambdas[i].shape] for i in range(n + 1)]}                              # pylint: disable=protected-access
+
+
+def install_tebd():
+    from oqupy.backends import pt_tebd_backend as tb
+
+    def wrap(name, op, extra):
+        orig = getattr(tb.PtTebdBackend, name)
+
+        def method(self, *a, **kw):
+            raised = True
+            try:
+                out = orig(self, *a, **kw)
+                raised = False
+                return out
+            finally:
+                try:
+                    if not raised:
+                        rec = {"ev": "tebd-init" if op == "init" else "tebd-op", "oid": _oid(self), "op": op, "ptexp": []}
+                        rec.update(_tebd(self))
+                        rec.update(extra(self, a, kw))
+                        _emit(rec)
+                    elif op != "init":
+                        _emit({"ev": "tebd-raised", "oid": _oid(self), "op": op})
+                except Exception as ex:  # pylint: disable=broad-except
+                    _emit({"ev": "hook-error", "where": "PtTebdBackend." + name, "detail": repr(ex)[:200]})
+        setattr(tb.PtTebdBackend, name, method)
+
+    def pt_expect(self, a, kw):
+        step = kw.get("step", a[0] if a else None)
+        pts = kw.get("process_tensors", a[1] if len(a) > 1 else None)
+        exp = []
+        for pt in pts:
+            bd = pt.get_bond_dimensions()
+            exp.append(-1 if bd is None else int(bd[step]))
+        return {"ptexp": exp, "step": int(step)}
+    wrap("__init__", "init", lambda self, a, kw: {})
+    wrap("apply_nn_gate_layer", "nn", lambda self, a, kw: {})
+    wrap("apply_site_gate_layer", "site", lambda self, a, kw: {})
+    wrap("apply_process_tensors", "pt", pt_expect)
+
+
 if _OUT:
     install()
+    install_tebd()
